@@ -76,6 +76,10 @@ pub fn judge(case: &Case) -> Verdict {
 }
 
 pub fn run(ctx: &Ctx, rep: &mut Report) {
+    if let Some((k, n)) = ctx.shard {
+        super::history::sharded_pairs(rep, 5, false, ctx.tier.thorough(), k, n);
+        return;
+    }
     let o = oracle();
     let d = deck();
     let perms: Vec<[usize; 5]> = permutations(5).into_iter().map(|p| [p[0], p[1], p[2], p[3], p[4]]).collect();
@@ -189,6 +193,7 @@ pub fn run(ctx: &Ctx, rep: &mut Report) {
     }
     // call sequences: a hidden memo / cache would answer every single input correctly and fail after a predecessor
     super::history::space(rep, 5, false, ctx.tier.thorough());
+    super::spawn_shards(ctx, rep, 16);
     rep.rule = "every five-card subset of the deck (oracle deck order) in every one of the 120 slot orders, through every five-card entry point; distinct = distinct ordered arrays, all of which are in the property's domain (each reaches a table cell through its own pre-image)".into();
     rep.bound = "inputs: none, the property's whole domain is enumerated. Histories: every input is also ranked right after a confusable predecessor (depth-2 call sequences over a 14-card sub-deck); longer histories are outside".into();
     rep.assume("the rule-derived class order (oracle::poker) is the standard poker strength order; self-checked against the textbook class and hand counts");
